@@ -68,13 +68,23 @@ def build_schema(groups):
         add("flag", cc.FeatureFlagField(default=True))
     if "misc" in groups:
         add("m_any", cc.AnyField()); add("m_inc", cc.IncludeField())
+        f = cc.Field()
+        f.storage_type = LocalMarker
+        add("m_local", f)
     return s, attrs, persistent
 
 
-PARAM_ANN = {"none": "", "int": ": int", "class": ": Marker", "strlit": ": 'str'", "generic": ": typing.List[int]",
+def _local_class():
+    class LocalMarker:           # a class defined inside a function body
+        pass
+    return LocalMarker
+
+
+LocalMarker = _local_class()
+PARAM_ANN = {"none": "", "int": ": int", "class": ": Marker", "localclass": ": LocalMarker", "strlit": ": 'str'", "generic": ": typing.List[int]",
              "builtin-generic": ": list[int]", "optional": ": typing.Optional[Marker]"}
 RET_ANN = {"absent": "", "int": " -> int", "none": " -> None", "strlit": " -> 'str'", "optional": " -> typing.Optional[int]",
-           "generic": " -> typing.Dict[str, int]", "class": " -> Marker"}
+           "generic": " -> typing.Dict[str, int]", "class": " -> Marker", "localclass": " -> LocalMarker"}
 
 
 def signatures(tier):
@@ -110,7 +120,7 @@ def make_func(sig, name="meth"):
     if sig["starkw"]:
         parts.append("**extra")
     src = "def %s(%s)%s:\n    return 0\n" % (name, ", ".join(parts), RET_ANN[sig["rann"]])
-    ns = {"typing": typing, "Marker": Marker}
+    ns = {"typing": typing, "Marker": Marker, "LocalMarker": LocalMarker}
     exec(src, ns)
     return ns[name], src
 
@@ -224,6 +234,10 @@ def check_fields(ctx, groups, target):
     ctx.states += 1
     ctx.transitions += 1
     res, out = gen(obj, name)
+    res_again, out_again = gen(obj, name)
+    out += out_again
+    if res[0] == "ok" and res_again != res:
+        bad("not-repeatable", "a second generation gives a different stub")
     ctx.case((tuple(groups), target), "fields:%s" % res[0], bool(groups))
     if out:
         bad("stdout", "generate_stub wrote to standard output: %r" % out[:80])
@@ -263,6 +277,11 @@ def _blame(groups):
     return "+".join(groups)
 
 
+def V_show(x):
+    r = repr(x)
+    return r if len(r) < 300 else r[:300] + "..."
+
+
 def check_sig(ctx, sigs):
     import cincoconfig as cc
     schema = cc.Schema()
@@ -280,6 +299,13 @@ def check_sig(ctx, sigs):
     ctx.states += 1
     ctx.transitions += 1
     res, out = gen(schema, "Stub")
+    # generating again (same schema, then its configuration) must give the same stub: no hidden state
+    res2, out2 = gen(schema, "Stub")
+    res3, out3 = gen(schema(), "Stub")
+    out = out + out2 + out3
+    if res[0] == "ok" and (res2 != res or res3 != res):
+        ctx.violation("C20|sig|not-repeatable", "methods %s: generating the stub again gives a different result: %s"
+                      % ([f[2].split(":\n")[0] for f in funcs.values()], V_show(res2[1] if res2 != res else res3[1])), case, size=len(sigs))
     key = tuple(tuple(sorted(s.items())) for s in sigs)
     ctx.case(key, "sig:%s:%d" % (res[0], len(sigs)), True)
     s0 = sigs[0]
